@@ -45,6 +45,10 @@ var srs = []srDef{
 	{"tmerc/x_0-omitted", "+proj=tmerc +lon_0=9 +k=0.9996 +datum=WGS84", [][2]float64{{0, 5761038}, {-85360.5, 4428236.1}}},
 	// an authalic sphere (+R_A): its radius is derived from the ellipsoid when the definition is parsed
 	{"merc/R_A", "+proj=merc +ellps=WGS84 +R_A +lon_0=0", [][2]float64{{400000, 6800000}, {-1200000, 5000000}, {1e300, 0}}},
+	// two geographic systems on shifted datums (the pair goes through WGS84 in two legs); the third point has
+	// a latitude of 95 degrees and fails in the first leg
+	{"longlat/bessel7p", "+proj=longlat +ellps=bessel +towgs84=577.326,90.129,463.919,5.137,1.474,5.297,2.4232", [][2]float64{{10, 50}, {13.3, 47.5}, {10, 95}}},
+	{"longlat/intl3p", "+proj=longlat +ellps=intl +towgs84=-87,-98,-121", [][2]float64{{10, 50}, {13.3, 47.5}, {10, 95}}},
 }
 
 func try(f func()) (p string) {
@@ -156,20 +160,20 @@ func main() {
 		return
 	}
 	rep := report.New("C10", tier, "model_checking")
-	rep.Rule = "E2 (stateless, no dedup: closure-captured state cannot be fingerprinted): ALL sequences of up to 4 (thorough 5) operations Build(i,j) / Call(slot, point) over two sets of 5 (6) spatial references parsed once per sequence (set A: 7-parameter tmerc/OSGB36, 3-parameter lcc/potsdam, the registered EPSG:4326 (and EPSG:3857), long/lat with +axis=neu and with +axis=wsu on a 7-parameter datum; set B: three UTM references of which two share a zone on different ellipsoids/datums, EPSG:4326, krovak; set C: Mercator and transverse Mercator pairs that differ only by an omitted +lon_0 / +x_0, EPSG:4326); set D: EPSG:4326, EPSG:3857, a Mercator and a Mercator on the authalic sphere (+R_A) with a third, out-of-domain point each - the pole fails towards Mercator, so sequences contain failing calls, repeated failing calls and calls after a failure); results (error or coordinates) must be bit-identical, two (set D: three) points per reference; every call must return what a freshly built transformer from freshly parsed definitions returns when called once; the reference values are recomputed after the sweep to detect changes of the registered globals. E1: structure trees of all eight types (vertices on a parabola, so that rings have area) x transformers {nil, affine, orientation-reversing affine, fail on the k-th call for every k <= Len}: same type and nesting (*Bounds -> 4-vertex polygon), i-th vertex = t(i-th vertex), input unchanged, error returned, no panic; the same with the input cut from one flat vertex buffer (same output, buffer not written, twice), and the output shares no storage with the input. Non-trivial = sequences that call some transformer at least twice or interleave two transformers."
+	rep.Rule = "E2 (stateless, no dedup: closure-captured state cannot be fingerprinted): ALL sequences of up to 4 (thorough 5) operations Build(i,j) / Call(slot, point) over two sets of 5 (6) spatial references parsed once per sequence (set A: 7-parameter tmerc/OSGB36, 3-parameter lcc/potsdam, the registered EPSG:4326 (and EPSG:3857), long/lat with +axis=neu and with +axis=wsu on a 7-parameter datum; set B: three UTM references of which two share a zone on different ellipsoids/datums, EPSG:4326, krovak; set C: Mercator and transverse Mercator pairs that differ only by an omitted +lon_0 / +x_0, EPSG:4326); set D: EPSG:4326, EPSG:3857, a Mercator and a Mercator on the authalic sphere (+R_A) with a third, out-of-domain point each - the pole fails towards Mercator, so sequences contain failing calls, repeated failing calls and calls after a failure); set E: two geographic systems on shifted datums and EPSG:4326 with a latitude of 95 degrees as third point (it fails in the first leg of the WGS84 hop); results (error or coordinates) must be bit-identical, two (set D: three) points per reference; every call must return what a freshly built transformer from freshly parsed definitions returns when called once; the reference values are recomputed after the sweep to detect changes of the registered globals. E1: structure trees of all eight types (vertices on a parabola, so that rings have area) x transformers {nil, affine, orientation-reversing affine, fail on the k-th call for every k <= Len}: same type and nesting (*Bounds -> 4-vertex polygon), i-th vertex = t(i-th vertex), input unchanged, error returned, no panic; the same with the input cut from one flat vertex buffer (same output, buffer not written, twice), and the output shares no storage with the input. Non-trivial = sequences that call some transformer at least twice or interleave two transformers."
 	// (set, depth) pairs: every sequence up to the depth is enumerated over each set
 	type plan struct {
 		use   []int
 		depth int
 		npts  int // points per reference (3: incl. the out-of-domain point; the pole fails towards Mercator)
 	}
-	plans := []plan{{[]int{0, 1, 2, 4, 5}, 4, 2}, {[]int{6, 8, 9, 2, 7}, 4, 2}, {[]int{10, 11, 12, 13, 2}, 4, 2}, {[]int{2, 3, 10, 14}, 4, 3}}
+	plans := []plan{{[]int{0, 1, 2, 4, 5}, 4, 2}, {[]int{6, 8, 9, 2, 7}, 4, 2}, {[]int{10, 11, 12, 13, 2}, 4, 2}, {[]int{2, 3, 10, 14}, 4, 3}, {[]int{15, 16, 2}, 4, 3}}
 	if tier == "thorough" {
 		plans = []plan{
 			{[]int{0, 1, 2, 3, 4, 5}, 4, 2}, {[]int{6, 8, 9, 2, 7, 3}, 4, 2},
 			{[]int{10, 11, 12, 13, 2, 3}, 4, 2},
 			{[]int{0, 1, 2, 5}, 5, 2}, {[]int{6, 8, 9, 2}, 5, 2}, {[]int{0, 6, 3, 4}, 5, 2}, {[]int{1, 7, 8, 5}, 5, 2}, {[]int{10, 11, 12, 13}, 5, 2},
-			{[]int{2, 3, 10, 14}, 5, 3},
+			{[]int{2, 3, 10, 14}, 5, 3}, {[]int{15, 16, 2}, 5, 3},
 		}
 	}
 	ref := map[[3]int]val{}
